@@ -28,6 +28,7 @@ func init() {
 			{ID: "C08.R4", Min: 8, Doc: "crash-point inventory: filesystem-mutating calls reachable from ioLoop, NewDiskQueue, Close, Delete compared with the reviewed list", Run: c08r4},
 			{ID: "C08.R5", Min: 2, Doc: "resume at persisted position: Seek(writePos/readPos, 0) follows the open of the segment under `pos > 0`", Run: c08r5},
 			{ID: "C08.R6", Min: 2, Doc: "handleReadError: nextReadFileNum is loaded from readFileNum after its increment; nextReadPos is 0 or loaded from readPos after it was set to 0", Run: c08r6},
+			{ID: "C08.R8", Min: 5, Doc: "what recovery reads back is what was written: reader and writer agree on the record format, the roll condition and the accepted record lengths, and re-opening the queue removes or renames no segment (rules C09.R5 and C09.R8 evaluated for this property as well)", Run: func(c *Check) { c09r5(c); c09r8(c) }},
 			{ID: "C08.R7", Min: 3, Doc: "metadata content: persistMetaData writes, and retrieveMetaData reads back, depth, readFileNum, readPos, writeFileNum, writePos in this order with the same format string; the consumer cursor (not the read-ahead cursor nextRead*) is what is persisted, and the read-ahead cursor is re-derived from it on load", Run: c08r7},
 		},
 	})
@@ -296,43 +297,98 @@ func c08r2(c *Check) {
 func c08r3(c *Check) {
 	wo := c.P.Func("nsqd", "*DiskQueue", "writeOne")
 	wfn, wpos, maxB, needSync := dqField(c, "writeFileNum"), dqField(c, "writePos"), dqField(c, "maxBytesPerFile"), dqField(c, "needSync")
-	// rollover branch: If (writePos > maxBytesPerFile)
-	var rollIf *ssa.If
-	allInstrs(wo, func(in ssa.Instruction) {
-		if ifi, ok := in.(*ssa.If); ok {
-			if bo, ok := ifi.Cond.(*ssa.BinOp); ok && isFieldLoad(bo.X, wpos) && isFieldLoad(bo.Y, maxB) {
-				rollIf = ifi
-			}
+	// rollover: on every path of writeOne (helper methods of the queue expanded, sync() as an event)
+	// that takes the `writePos > maxBytesPerFile` edge, writeFileNum++ and writePos = 0 precede the forced sync()
+	isRollTest := func(cond ssa.Value) (bool, bool) { // (is the roll test, polarity: true edge = roll)
+		cnd, neg := negStrip(cond)
+		bo, ok := cnd.(*ssa.BinOp)
+		if !ok {
+			return false, false
 		}
-	})
-	if rollIf == nil {
-		anchorFail("writeOne: rollover test not found")
+		op := bo.Op
+		switch {
+		case isFieldLoad(bo.X, wpos) && isFieldLoad(bo.Y, maxB):
+		case isFieldLoad(bo.Y, wpos) && isFieldLoad(bo.X, maxB):
+			op = flipRel(op)
+		default:
+			return false, false
+		}
+		if neg {
+			op = negRel(op)
+		}
+		return true, op == token.GTR || op == token.GEQ
 	}
-	var syncCall ssa.Instruction
-	var stores []ssa.Instruction
-	region := reachable(rollIf.Block().Succs[0], nil, nil)
-	for b := range region {
-		if !rollIf.Block().Succs[0].Dominates(b) {
-			continue
-		}
-		for _, in := range b.Instrs {
+	sameRecv := inlineSameRecv(wo)
+	var rollAt ssa.Instruction
+	cfgRoll := &PathCfg{
+		Inline: func(g *ssa.Function) bool {
+			return sameRecv(g) && g.Name() != "sync" && g.Name() != "persistMetaData"
+		},
+		Classify: func(in ssa.Instruction) []string {
 			if isCallNamed(in, nsqdDQ+"sync") {
-				syncCall = in
+				return []string{"sync"}
 			}
 			if st, ok := in.(*ssa.Store); ok {
-				if fa, ok := st.Addr.(*ssa.FieldAddr); ok && (fieldOfAddr(fa) == wfn || fieldOfAddr(fa) == wpos) {
-					stores = append(stores, st)
+				if fa, ok := st.Addr.(*ssa.FieldAddr); ok {
+					switch fieldOfAddr(fa) {
+					case wfn:
+						return []string{"st:writeFileNum"}
+					case wpos:
+						if k, ok := constInt(st.Val); ok && k == 0 {
+							return []string{"st:writePos=0"}
+						}
+						return []string{"st:writePos"}
+					}
 				}
 			}
+			return nil
+		},
+		Branch: func(ifi *ssa.If, cond ssa.Value, taken bool) []string {
+			if is, pol := isRollTest(cond); is {
+				rollAt = ifi
+				if taken == pol {
+					return []string{"roll"}
+				}
+				return []string{"noroll"}
+			}
+			return nil
+		},
+	}
+	rpaths, rtrunc := EnumPaths(wo, nil, cfgRoll)
+	badRoll, nRoll := "", 0
+	for i := range rpaths {
+		pa := &rpaths[i]
+		k := pa.Index("roll")
+		if k < 0 {
+			continue
+		}
+		nRoll++
+		seenNum, seenPos, synced := false, false, false
+		for _, e := range pa.Events[k+1:] {
+			switch e.Class {
+			case "st:writeFileNum":
+				seenNum = true
+			case "st:writePos=0":
+				seenPos = true
+			case "sync":
+				if !synced && !(seenNum && seenPos) {
+					badRoll = "the forced sync runs before the cursor was moved to the new segment: " + pa.String()
+				}
+				synced = true
+			}
+		}
+		if !synced && pa.End == "return" {
+			badRoll = "a rollover path does not sync: " + pa.String()
 		}
 	}
-	okOrder := syncCall != nil && len(stores) == 2
-	for _, st := range stores {
-		if syncCall == nil || !instrDominates(st, syncCall) {
-			okOrder = false
-		}
+	if rollAt == nil {
+		anchorFail("writeOne: rollover test not found")
 	}
-	c.Judge(okOrder, "nsqd.writeOne rollover: advance to the new segment, then sync", c.At(rollIf), "writeFileNum++ and writePos = 0 precede the forced sync()", "on rollover the forced sync persists the old segment number with a position beyond the segment limit (or no sync happens): after a crash the reader fails on the missing record and the queue hangs in its error loop")
+	if rtrunc || nRoll == 0 {
+		c.Undecided("nsqd.writeOne rollover: advance to the new segment, then sync", c.At(rollAt), "no rollover path enumerated")
+	} else {
+		c.Judge(badRoll == "", "nsqd.writeOne rollover: advance to the new segment, then sync", c.At(rollAt), fmt.Sprintf("%d rollover paths: writeFileNum++ and writePos = 0 precede the forced sync()", nRoll), "on rollover the forced sync persists the old segment number with a position beyond the segment limit (or no sync happens): after a crash the reader fails on the missing record and the queue hangs in its error loop — "+badRoll)
+	}
 	// moveForward: file change sets needSync
 	mf := c.P.Func("nsqd", "*DiskQueue", "moveForward")
 	okNS := false
@@ -368,36 +424,104 @@ func c08r3(c *Check) {
 		}
 	})
 	c.Judge(okH, "nsqd.handleReadError requests a sync", c.AtFn(hre), "needSync = true", "skipping a bad segment is not followed by a metadata sync")
-	// ioLoop: if needSync { sync() } before read and select
+	// ioLoop: on every path from the loop header to the select (helper methods expanded), a pending
+	// needSync leads to sync() before readOne and before the select
 	io := c.P.Func("nsqd", "*DiskQueue", "ioLoop")
 	var sel *ssa.Select
-	var syncInLoop ssa.Instruction
 	allInstrs(io, func(in ssa.Instruction) {
-		if s, ok := in.(*ssa.Select); ok {
+		if s, ok := in.(*ssa.Select); ok && s.Blocking {
 			sel = s
 		}
-		if isCallNamed(in, nsqdDQ+"sync") {
-			syncInLoop = in
-		}
 	})
-	okLoop := false
-	if sel != nil && syncInLoop != nil {
-		// the sync call is guarded by needSync and every path from the loop header to the select passes the test
-		for _, b := range io.Blocks {
-			if ifi, ok := b.Instrs[len(b.Instrs)-1].(*ssa.If); ok && isFieldLoad(ifi.Cond, needSync) {
-				if edgeDominates(b, b.Succs[0], syncInLoop.Block()) && b.Dominates(sel.Block()) {
-					okLoop = true
+	if sel == nil {
+		anchorFail("ioLoop: select not found")
+	}
+	ioLoops := loopsOf(io)
+	var ioLoop *Loop
+	for _, l := range ioLoops {
+		if l.Body[sel.Block()] && (ioLoop == nil || len(l.Body) > len(ioLoop.Body)) {
+			ioLoop = l
+		}
+	}
+	if ioLoop == nil {
+		anchorFail("ioLoop: loop around the select not found")
+	}
+	stop := map[*ssa.BasicBlock]bool{}
+	for _, su := range sel.Block().Succs {
+		stop[su] = true
+	}
+	sameRecvIO := inlineSameRecv(io)
+	cfgIO := &PathCfg{
+		Stop: func(b *ssa.BasicBlock) bool { return stop[b] },
+		Inline: func(g *ssa.Function) bool {
+			switch g.Name() {
+			case "sync", "readOne", "handleReadError", "persistMetaData":
+				return false
+			}
+			return sameRecvIO(g)
+		},
+		ConsistentFields: map[*types.Var]bool{needSync: true},
+		Classify: func(in ssa.Instruction) []string {
+			switch {
+			case isCallNamed(in, nsqdDQ+"sync"):
+				return []string{"sync"}
+			case isCallNamed(in, nsqdDQ+"readOne"):
+				return []string{"readOne"}
+			}
+			if _, ok := in.(*ssa.Select); ok {
+				return []string{"select"}
+			}
+			if st, ok := in.(*ssa.Store); ok {
+				if fa, ok := st.Addr.(*ssa.FieldAddr); ok && fieldOfAddr(fa) == needSync {
+					if v, ok := constBool(st.Val); ok && v {
+						return []string{"needSync=true"}
+					}
 				}
 			}
-		}
-		// and readOne is called after it
-		allInstrs(io, func(in ssa.Instruction) {
-			if isCallNamed(in, nsqdDQ+"readOne") && !(syncInLoop.Block().Dominates(in.Block()) || instrReachAvoiding(syncInLoop, in, nil)) {
-				okLoop = false
+			return nil
+		},
+		Branch: func(ifi *ssa.If, cond ssa.Value, taken bool) []string {
+			cnd, neg := negStrip(cond)
+			if isFieldLoad(cnd, needSync) {
+				if taken != neg {
+					return []string{"pending"}
+				}
+				return []string{"notpending"}
 			}
-		})
+			return nil
+		},
 	}
-	c.Judge(okLoop, "nsqd.ioLoop performs a requested sync before reading/selecting", c.AtFn(io), "`if needSync { sync() }` dominates the select", "a requested sync is not executed at the top of the I/O loop")
+	ipaths, itrunc := EnumPaths(io, ioLoop.Header, cfgIO)
+	badIO, nPending, nTested := "", 0, 0
+	for i := range ipaths {
+		pa := &ipaths[i]
+		if pa.End != "stop" {
+			continue
+		}
+		if pa.Has("pending") || pa.Has("notpending") {
+			nTested++
+		} else {
+			badIO = "a path reaches the select without looking at needSync: " + pa.String()
+		}
+		if k := pa.Index("pending"); k >= 0 {
+			nPending++
+			ks := -1
+			for j, e := range pa.Events[k+1:] {
+				if e.Class == "sync" && ks < 0 {
+					ks = k + 1 + j
+				}
+			}
+			kr, ksel := pa.Index("readOne"), pa.Index("select")
+			if ks < 0 || (kr >= 0 && kr < ks) || (ksel >= 0 && ksel < ks) {
+				badIO = "a requested sync is not executed before reading/selecting: " + pa.String()
+			}
+		}
+	}
+	if itrunc || nPending == 0 {
+		c.Undecided("nsqd.ioLoop performs a requested sync before reading/selecting", c.AtFn(io), "no loop-head path with a pending sync enumerated")
+	} else {
+		c.Judge(badIO == "", "nsqd.ioLoop performs a requested sync before reading/selecting", c.AtFn(io), fmt.Sprintf("%d loop-head paths, %d with a pending sync: sync() first", len(ipaths), nPending), "a requested sync is not executed at the top of the I/O loop — "+badIO)
+	}
 }
 
 // fsMutations lists filesystem-mutating calls in fn.
@@ -424,16 +548,99 @@ func fsMutation(in ssa.Instruction) (string, bool) {
 	return "", false
 }
 
-// reviewed crash points: function → ordered list of mutating calls
-var reviewedCrashPoints = map[string][]string{
-	"(*nsqd.DiskQueue).writeOne":         {"os.OpenFile(create)", "(*os.File).Write"},
-	"(*nsqd.DiskQueue).sync":             {"(*os.File).Sync"},
-	"(*nsqd.DiskQueue).persistMetaData":  {"os.OpenFile(create)", "fmt.Fprintf(file)", "(*os.File).Sync", "os.Rename"},
-	"(*nsqd.DiskQueue).moveForward":      {"os.Remove"},
-	"(*nsqd.DiskQueue).handleReadError":  {"os.Rename"},
-	"(*nsqd.DiskQueue).skipToNextRWFile": {"os.Remove"},
-	"(*nsqd.DiskQueue).deleteAllFiles":   {"os.Remove"},
-	"nsqd.NewDiskQueue":                  {"os.MkdirAll"},
+// pathOrigin: which name-producing function of package nsqd a path argument comes from.
+func pathOrigin(v ssa.Value, depth int) string {
+	if depth > 8 || v == nil {
+		return "other"
+	}
+	switch x := v.(type) {
+	case *ssa.Call:
+		if g := x.Call.StaticCallee(); g != nil && ModuleFunc(g) {
+			return g.Name()
+		}
+		for _, a := range x.Call.Args {
+			if o := pathOrigin(a, depth+1); o != "other" {
+				return o
+			}
+		}
+	case *ssa.BinOp:
+		if o := pathOrigin(x.X, depth+1); o != "other" {
+			return o
+		}
+		return pathOrigin(x.Y, depth+1)
+	case *ssa.Phi:
+		for _, e := range x.Edges {
+			if o := pathOrigin(e, depth+1); o != "other" {
+				return o
+			}
+		}
+	case *ssa.UnOp:
+		if al, ok := x.X.(*ssa.Alloc); ok {
+			if s := cellValue(al); s != nil {
+				return pathOrigin(s, depth+1)
+			}
+		}
+		if _, f, ok := fieldLoad(x); ok {
+			return "field " + f.Name()
+		}
+	case *ssa.Slice:
+		return pathOrigin(x.X, depth+1)
+	case *ssa.MakeInterface:
+		return pathOrigin(x.X, depth+1)
+	}
+	return "other"
+}
+
+// crashPointSig: a filesystem mutation described independently of the function it sits in:
+// the operation and what it operates on.
+func crashPointSig(in ssa.Instruction) (string, bool) {
+	n, ok := fsMutation(in)
+	if !ok {
+		return "", false
+	}
+	cc := callCommon(in)
+	target := "other"
+	switch {
+	case strings.HasPrefix(n, "(*os.File)."):
+		if _, f, ok := fieldLoad(cc.Args[0]); ok {
+			target = "field " + f.Name()
+		} else {
+			target = "local file"
+		}
+	case strings.HasPrefix(n, "fmt."):
+		target = "local file"
+		if mi, ok := cc.Args[0].(*ssa.MakeInterface); ok {
+			if _, f, ok := fieldLoad(mi.X); ok {
+				target = "field " + f.Name()
+			}
+		}
+	default:
+		if len(cc.Args) > 0 {
+			target = pathOrigin(cc.Args[0], 0)
+		}
+	}
+	return n + " on " + target, true
+}
+
+// reviewed crash points of the disk queue: every filesystem mutation reachable from ioLoop,
+// NewDiskQueue, Close and Delete, as (operation, object) with its multiplicity. The inventory is
+// independent of how the code is split into functions; each entry is covered by the ordering
+// rules R1–R3, R5–R7 or is idempotent/harmless at a crash (reason per line).
+var reviewedCrashPoints = map[string]struct {
+	n   int
+	why string
+}{
+	"os.OpenFile(create) on fileName":         {1, "writeOne creates the write segment; an empty segment beyond the persisted writePos is ignored on restart (R5 seeks to the persisted position)"},
+	"(*os.File).Write on field writeFile":     {1, "record append; persisted only by sync() before the metadata (R1)"},
+	"(*os.File).Sync on field writeFile":      {1, "data fsync that precedes persistMetaData (R1)"},
+	"os.OpenFile(create) on metaDataFileName": {1, "temporary metadata file (R2)"},
+	"fmt.Fprintf(file) on local file":         {1, "metadata content into the temporary file (R2, R7)"},
+	"(*os.File).Sync on local file":           {1, "fsync of the temporary metadata file before the rename (R2)"},
+	"os.Rename on metaDataFileName":           {1, "atomic replace of the metadata (R2)"},
+	"os.Remove on fileName":                   {2, "moveForward removes a fully consumed segment after needSync was set (R3); skipToNextRWFile removes segments on Empty"},
+	"os.Rename on fileName":                   {1, "handleReadError sets a corrupt segment aside (.bad) and schedules a sync (R3, R6)"},
+	"os.Remove on metaDataFileName":           {1, "deleteAllFiles removes the metadata on Empty/Delete"},
+	"os.MkdirAll on field dataPath":           {1, "NewDiskQueue creates the data directory; idempotent"},
 }
 
 func c08r4(c *Check) {
@@ -445,36 +652,45 @@ func c08r4(c *Check) {
 		fns = append(fns, f)
 	}
 	sort.Slice(fns, func(i, j int) bool { return fns[i].String() < fns[j].String() })
+	got := map[string]int{}
+	where := map[string][]string{}
+	first := map[string]ssa.Instruction{}
 	for _, f := range fns {
-		var got []string
-		var first ssa.Instruction
 		allInstrs(f, func(in ssa.Instruction) {
-			if n, ok := fsMutation(in); ok {
-				got = append(got, n)
-				if first == nil {
-					first = in
+			if sig, ok := crashPointSig(in); ok {
+				got[sig]++
+				where[sig] = append(where[sig], FuncName(f)+" at "+c.At(in))
+				if first[sig] == nil {
+					first[sig] = in
 				}
+				c.Stat("crash_points", 1)
 			}
 		})
-		if len(got) == 0 {
-			continue
-		}
-		want := reviewedCrashPoints[FuncName(f)]
-		key := "crash points of " + FuncName(f)
-		c.Judge(strings.Join(got, ",") == strings.Join(want, ","), key, c.At(first), strings.Join(got, ", "), fmt.Sprintf("filesystem mutations [%s] differ from the reviewed crash points [%s]: a new or moved crash point must be covered by the ordering rules before this check can pass", strings.Join(got, ", "), strings.Join(want, ", ")))
-		for range got {
-			c.Stat("crash_points", 1)
+	}
+	var sigs []string
+	for s := range got {
+		sigs = append(sigs, s)
+	}
+	for s := range reviewedCrashPoints {
+		if _, ok := got[s]; !ok {
+			sigs = append(sigs, s)
 		}
 	}
-	for name := range reviewedCrashPoints {
-		found := false
-		for _, f := range fns {
-			if FuncName(f) == name {
-				found = true
-			}
+	sort.Strings(sigs)
+	for _, sig := range sigs {
+		want := reviewedCrashPoints[sig]
+		key := "crash point " + sig
+		pos := "-"
+		if first[sig] != nil {
+			pos = c.At(first[sig])
 		}
-		if !found {
-			c.Undecided("reviewed crash-point function "+name, "-", "function no longer reachable from the queue's entry points")
+		switch {
+		case got[sig] == want.n:
+			c.Hold(key, pos, fmt.Sprintf("%d site(s): %s", want.n, want.why))
+		case got[sig] > want.n:
+			c.ViolateW(key, pos, fmt.Sprintf("%d site(s) of this filesystem mutation are reachable from the queue's entry points, %d were reviewed: a new crash point (a new way the on-disk state can be left) must be covered by the ordering rules before this check can pass", got[sig], want.n), where[sig])
+		default:
+			c.Undecided(key, pos, fmt.Sprintf("%d site(s) found, %d reviewed: the reviewed inventory no longer matches the code and must be re-confirmed", got[sig], want.n))
 		}
 	}
 }
@@ -484,24 +700,31 @@ func c08r5(c *Check) {
 		fn := c.P.Func("nsqd", "*DiskQueue", x.fn)
 		posF, fileF := dqField(c, x.pos), dqField(c, x.file)
 		var open, seek *ssa.Call
-		allInstrs(fn, func(in ssa.Instruction) {
-			if call, ok := in.(*ssa.Call); ok {
-				switch calleeName(call.Common()) {
-				case "os.OpenFile":
-					open = call
-				case "(*os.File).Seek":
-					seek = call
+		// the open-and-position step may have been moved into a helper method of the queue
+		for _, g := range workerFuncs(c.P, fn) {
+			var o, sk *ssa.Call
+			allInstrs(g, func(in ssa.Instruction) {
+				if call, ok := in.(*ssa.Call); ok {
+					switch calleeName(call.Common()) {
+					case "os.OpenFile":
+						o = call
+					case "(*os.File).Seek":
+						sk = call
+					}
 				}
+			})
+			if o != nil && sk != nil {
+				open, seek = o, sk
 			}
-		})
-		ok := open != nil && seek != nil && instrDominates(open, seek) && isFieldLoad(seek.Call.Args[0], fileF) && isFieldLoad(seek.Call.Args[1], posF)
+		}
+		ok := open != nil && seek != nil && open.Parent() == seek.Parent() && instrDominates(open, seek) && isFieldLoad(seek.Call.Args[0], fileF) && isFieldLoad(seek.Call.Args[1], posF)
 		if ok {
 			if k, okc := constInt(seek.Call.Args[2]); !okc || k != 0 {
 				ok = false
 			}
 			// guarded by pos > 0
 			guarded := false
-			for _, b := range fn.Blocks {
+			for _, b := range seek.Parent().Blocks {
 				if ifi, isIf := b.Instrs[len(b.Instrs)-1].(*ssa.If); isIf {
 					if bo, isBo := ifi.Cond.(*ssa.BinOp); isBo && bo.Op == token.GTR && isFieldLoad(bo.X, posF) && edgeDominates(b, b.Succs[0], seek.Block()) {
 						guarded = true
